@@ -42,14 +42,16 @@ def make_case(seed: int, tier: str, prop: str, opts=None) -> Dict[str, Any]:
     elif prop == "C10" and fam in (16, 17) and not force:
         # same-time loops with attached consumers: sub-steps are ordered by lazy stepping too
         sc = gen.gen_loop(seed, tier)
-    elif prop == "C10" and fam == 18 and not force:
-        # lazy stepping also bounds run-ahead in real-time mode (consumers slower than the clock)
+    elif prop in ("C10", "C07") and fam == 18 and not force:
+        # lazy stepping also bounds run-ahead in real-time mode (consumers slower than the clock);
+        # max_advance is the same promise in real-time mode
         c = gen.gen_rt(seed, tier)
         sc = c["scenario"]
         if sc["config"].get("rt_factor") is None:
             sc["config"]["rt_factor"] = sc["rt"]["f"]
         sc["config"]["rt_strict"] = False
-        sc["config"]["lazy"] = True
+        if prop == "C10":
+            sc["config"]["lazy"] = True
         return {"scenario": sc, "schedules": [c["schedule"]]}
     elif fam == 19 and not force:
         sc = gen.gen_deeptail(seed, tier) if h64(seed, "family2") % 10 < 3 else gen.gen_twopath(seed, tier)
